@@ -11,8 +11,16 @@ def _sig(ops, io, mo, k):
 CFG = PropCfg(
     "C16", "HopModel.Props.C16",
     [SuiteCfg("C16", kind="monitor", signature=_sig, timeout=3000, crash_batch=12,
-              nontrivial=lambda seg, ver: sum(1 for l in seg if l.startswith("tr ")) >= 3)],
-    rule="a case is one generated concurrent program (2-7 goroutines of Write/Read/Close/WaitForClose/Stop on both "
+              nontrivial=lambda seg, ver: sum(1 for l in seg if l.startswith("tr ")) >= 3),
+     # tubes whose request and FIN arrive back to back (crafted frames: C11's harness and driver): they close, Stop returns
+     SuiteCfg("C11fin", binary="C11", timeout=900, parts_thorough=1,
+              should_shrink=lambda f: not any(o.split(" ")[0] in ("blocked", "wedged", "stuck", "panic", "dead", "died", "hung")
+                                              for o in f["impl"]),
+              nontrivial=lambda ops, outs: any(o.startswith("reap") for o in ops))],
+    rule="suite C11fin (C11's harness, scripted peer): 16 tubes per case whose request and FIN are delivered back to back, "
+         "so that the FIN can be processed before the tube's initiation goroutine has finished; the tubes are then "
+         "accepted, some closed through the handshake (the reaper must remove them), traffic on another tube flows and "
+         "Stop returns. suite C16: a case is one generated concurrent program (2-7 goroutines of Write/Read/Close/WaitForClose/Stop on both "
          "ends, 1-3 reliable or unreliable tubes, plus one goroutine per side that eventually calls Stop) run on two "
          "real muxers (Config.Timeout 1 s) joined by an in-memory MsgConn with a loss pattern (none, 10/30/60 %, "
          "total, dead after k datagrams, one-way) and seeded yield points; 12 cases run concurrently. Programs also open "
